@@ -1,18 +1,44 @@
 import NbioVerif.Model.WsF
-/-! probe: websocket.Conn receive path (Parse / nextFrame / handleWsMessage) and send path (WriteMessage / writeFrame),
-    no compression, inline executor -/
+/-! websocket.Conn (nbhttp/websocket/conn.go): receive path `Parse` / `nextFrame` / `validFrame` / `readAll` /
+    `handleWsMessage` with the default ping/pong/close handlers, and send path `WriteMessage` / `writeFrame`.
+    Poller-driven mode with an executor that runs jobs inline and refuses them once the underlying conn is closed.
+
+    Environment (explicit inputs, never state): the mask key drawn for the i-th frame this endpoint writes, what
+    `compress/flate` answers (deflate output; inflate output and how the reader chunked it, which capacities the
+    allocator handed out).  One helper per Go paragraph. -/
 namespace Ws
 open WsF
 
 abbrev Bytes := List UInt8
 
+def str (x : String) : Bytes := x.toList.map (fun c => UInt8.ofNat c.toNat)
+
 structure Cfg where
-  enableCompression : Bool      -- upgrader flag (RSV1 allowed)
+  enableCompression : Bool      -- Upgrader.enableCompression: RSV1 accepted on receive
+  writeCompression : Bool       -- Conn.enableWriteCompression: text/binary messages are deflated on send
   msgLimit : Nat                -- MessageLengthLimit, 0 = unlimited
-  readLimit : Nat               -- Engine.ReadLimit
+  readLimit : Nat               -- Engine.ReadLimit, 0 = unlimited
   maxFrame : Nat                -- Engine.MaxWebsocketFramePayloadSize
-  isClient : Bool               -- role of THIS endpoint when it writes
-  maskKey : Bytes               -- 4 bytes used for every written frame when isClient (parameter)
+  isClient : Bool               -- role of THIS endpoint (a client masks what it writes)
+
+/-- one `Read` of the inflater as seen by `readAll`: capacity of the buffer at that moment, bytes returned,
+    status (0 = nil, 1 = io.EOF, anything else = error) -/
+structure RdStep where
+  cap : Nat
+  n : Nat
+  st : Nat
+  deriving Repr, DecidableEq
+
+/-- what the decompressor did on one message: the bytes it handed out and the read script -/
+structure InflObs where
+  out : Bytes
+  steps : List RdStep
+
+/-- environment of one endpoint -/
+structure Env where
+  keyAt : Nat → Bytes           -- mask key of the i-th frame written by this endpoint (4 bytes)
+  deflate : Bytes → Bytes       -- compressWriter (flate + sync flush, last four bytes cut off by truncWriter)
+  inflate : Bytes → InflObs     -- decompressReader on message ++ flateReaderTail
 
 inductive Act
   | deliver (t : Nat) (payload : Bytes)
@@ -27,6 +53,7 @@ structure S where
   compress : Bool := false
   expecting : Bool := false
   connClosed : Bool := false    -- underlying conn closed (Execute refuses, writes fail)
+  nwrites : Nat := 0            -- ghost: frames written so far (index into Env.keyAt)
 
 /-- RFC 3629 / Go utf8.Valid -/
 def utf8Valid : Bytes → Bool
@@ -53,77 +80,94 @@ def utf8Valid : Bytes → Bool
       | _ => false
     else false
 
+/-- `validCloseCode` (conn.go) -/
 def validCloseCode (c : Nat) : Bool :=
-  (1000 ≤ c && c ≤ 1003) || (1007 ≤ c && c ≤ 1011) || c == 1015 || (3000 ≤ c && c < 5000)
+  (1000 ≤ c && c ≤ 1003) || (1007 ≤ c && c ≤ 1011) || (3000 ≤ c && c < 5000)
 
-/-- per-byte masking (specification form of maskXOR) -/
+/-- per-byte masking: the specification of `maskXOR` -/
 def maskSpec (key : Bytes) (b : Bytes) : Bytes :=
   (b.zipIdx).map (fun (x, i) => x ^^^ key[i % 4]!)
 
 /-! ### send side -/
 
-def encodeFrame (g : Cfg) (opcode : Nat) (sendOpcode fin : Bool) (data : Bytes) (rsv1 : Bool) : Bytes :=
-  let h : Hdr := { fin, rsv1, opcode := if sendOpcode then opcode else 0, masked := g.isClient, len := data.length }
-  if g.isClient then encHdr h ++ g.maskKey ++ maskSpec g.maskKey data else encHdr h ++ data
-
-def fragments (g : Cfg) (opcode : Nat) : Nat → Bytes → Bool → List Bytes
-  | 0, _, _ => []
-  | fuel+1, data, first =>
-    let n := min data.length g.maxFrame
-    if n == data.length then [encodeFrame g opcode first true data false]
-    else encodeFrame g opcode first false (data.take n) false :: fragments g opcode fuel (data.drop n) false
-
-/-- WriteMessage without compression: list of conn writes, or none = ErrControlMessageTooBig -/
-def writeMessage (g : Cfg) (opcode : Nat) (data : Bytes) : Option (List Bytes) :=
-  if (opcode == 8 || opcode == 9 || opcode == 10) && data.length > 125 then none
-  else if data.length > 0 then some (fragments g opcode (data.length + 1) data true)
-  else some [encodeFrame g opcode true true [] false]
-
-def send (g : Cfg) (s : S) (opcode : Nat) (data : Bytes) : List Act :=
-  if s.connClosed then [] else
-  match writeMessage g opcode data with
-  | some ws => ws.map Act.write
-  | none => []
-
-/-! ### receive side -/
-
 inductive Err | closed | tooLong | invalidFragment | tooLarge | controlTooBig | reserveBit | reservedType
-              | controlFragmented | fragWithType | consumed
+              | controlFragmented | fragWithType | consumed | panic | inflate | stuck
   deriving Repr, DecidableEq
 def Err.code : Err → Nat
   | .closed => 1 | .tooLong => 2 | .invalidFragment => 3 | .tooLarge => 4 | .controlTooBig => 5
   | .reserveBit => 6 | .reservedType => 7 | .controlFragmented => 8 | .fragWithType => 9 | .consumed => 10
+  | .panic => 11 | .inflate => 12 | .stuck => 99
+
+/-- `writeFrame`: the bytes of one frame -/
+def encodeFrame (isClient : Bool) (key : Bytes) (opcode : Nat) (sendOpcode fin : Bool) (data : Bytes) (rsv1 : Bool) : Bytes :=
+  let h : Hdr := { fin, rsv1, opcode := if sendOpcode then opcode else 0, masked := isClient, len := data.length }
+  if isClient then encHdr h ++ key ++ maskSpec key data else encHdr h ++ data
+
+/-- the fragmentation loop of `WriteMessage`; `i` = index of the next frame this endpoint writes -/
+def fragments (g : Cfg) (keyAt : Nat → Bytes) (opcode : Nat) : Nat → Nat → Bytes → Bool → Bool → List Bytes
+  | 0, _, _, _, _ => []
+  | fuel+1, i, data, first, rsv1 =>
+    let n := min data.length g.maxFrame
+    if n == data.length then [encodeFrame g.isClient (keyAt i) opcode first true data rsv1]
+    else encodeFrame g.isClient (keyAt i) opcode first false (data.take n) rsv1
+          :: fragments g keyAt opcode fuel (i + 1) (data.drop n) false false
+
+def isControl (opcode : Nat) : Bool := opcode == 8 || opcode == 9 || opcode == 10
+
+/-- `WriteMessage`: the conn writes (one per frame), or the error; `i` = frames written before -/
+def writeMessage (g : Cfg) (e : Env) (i : Nat) (opcode : Nat) (data : Bytes) : Except Err (List Bytes) :=
+  if isControl opcode then
+    if data.length > 125 then .error .controlTooBig
+    else .ok [encodeFrame g.isClient (e.keyAt i) opcode true true data false]
+  else
+    let compress := g.writeCompression && (opcode == 1 || opcode == 2)
+    let data := if compress then e.deflate data else data
+    if data.length > 0 then .ok (fragments g e.keyAt opcode (data.length + 1) i data true compress)
+    else .ok [encodeFrame g.isClient (e.keyAt i) opcode true true [] compress]
+
+/-- a WriteMessage issued from a handler: writes fail once the conn is closed -/
+def send (g : Cfg) (e : Env) (s : S) (opcode : Nat) (data : Bytes) : List Act :=
+  if s.connClosed then [] else
+  match writeMessage g e s.nwrites opcode data with
+  | .ok ws => ws.map Act.write
+  | .error _ => []
+
+def countWrites (acts : List Act) : Nat :=
+  (acts.filter (fun a => match a with | .write _ => true | _ => false)).length
+
+/-! ### receive side -/
 
 def be16 (n : Nat) : Bytes := beEnc 2 n
 
-/-- handleWsMessage with the default handlers; returns actions and whether the conn got closed -/
-def handleWs (g : Cfg) (s : S) (opcode : Nat) (data : Bytes) : List Act × Bool :=
+/-- `handleWsMessage` with the default handlers; returns the actions and whether the conn got closed -/
+def handleWs (g : Cfg) (e : Env) (s : S) (opcode : Nat) (data : Bytes) : List Act × Bool :=
   let badUtf8 := be16 1002 ++ (str "invalid UTF-8 bytes")
   match opcode with
   | 2 => ([.deliver 2 data], false)
   | 1 =>
-    if !utf8Valid data then (send g s 8 badUtf8 ++ [.closeConn], true) else ([.deliver 1 data], false)
-  | 9 => (send g s 10 data, false)
+    if !utf8Valid data then (send g e s 8 badUtf8 ++ [.closeConn], true) else ([.deliver 1 data], false)
+  | 9 => (send g e s 10 data, false)
   | 10 => ([], false)
   | 8 =>
-    if data.length == 0 then (send g s 8 [] ++ [.closeConn], true)
+    if data.length == 0 then (send g e s 8 [] ++ [.closeConn], true)
     else if data.length ≥ 2 then
       let code := beDec (data.take 2)
-      if !validCloseCode code then (send g s 8 (be16 1002) ++ [.closeConn], true)
-      else if !utf8Valid (data.drop 2) then (send g s 8 badUtf8 ++ [.closeConn], true)
-      else (send g s 8 (be16 code ++ data.drop 2) ++ [.closeConn], true)
-    else (send g s 8 (be16 1002) ++ [.closeConn], true)
+      if !validCloseCode code then (send g e s 8 (be16 1002) ++ [.closeConn], true)
+      else if !utf8Valid (data.drop 2) then (send g e s 8 badUtf8 ++ [.closeConn], true)
+      else (send g e s 8 (be16 code ++ data.drop 2) ++ [.closeConn], true)
+    else (send g e s 8 (be16 1002) ++ [.closeConn], true)
   | _ => ([.closeConn], true)
-where str (x : String) : Bytes := x.toList.map (fun c => UInt8.ofNat c.toNat)
 
 def tooLarge (g : Cfg) (n : Int) : Bool := g.msgLimit > 0 && n > g.msgLimit
 
+/-- `Conn.validFrame` -/
 def validFrame (g : Cfg) (opcode : Nat) (fin r1 r2 r3 expecting : Bool) : Option Err :=
-  if r1 && !g.enableCompression then some .reserveBit
+  if r1 && (!g.enableCompression || (opcode != 1 && opcode != 2)) then some .reserveBit
   else if r2 || r3 then some .reserveBit
   else if opcode > 2 && opcode < 8 then some .reservedType
   else if !fin && opcode != 0 && opcode != 1 && opcode != 2 then some .controlFragmented
   else if expecting && (opcode == 1 || opcode == 2) then some .fragWithType
+  else if !expecting && opcode == 0 then some .invalidFragment
   else none
 
 inductive NF
@@ -164,10 +208,11 @@ def decodeHdr (cache : Bytes) : Option (Except Err HdrInfo) :=
 
 def msgLen (s : S) : Nat := match s.message with | some m => m.length | none => 0
 
-/-- second paragraph: the size checks, made as soon as the header is complete -/
+/-- second paragraph: the size checks, made as soon as the header is complete.
+    A control frame is not part of the message under assembly. -/
 def sizeCheck (g : Cfg) (ml : Nat) (h : HdrInfo) : Option Err :=
-  if tooLarge g ((ml : Int) + h.bodyLen) then some .tooLarge
-  else if h.bodyLen > 125 && (h.opcode == 9 || h.opcode == 10 || h.opcode == 8) then some .controlTooBig
+  if !isControl h.opcode && tooLarge g ((ml : Int) + h.bodyLen) then some .tooLarge
+  else if h.bodyLen > 125 && isControl h.opcode then some .controlTooBig
   else none
 
 /-- third paragraph: the (unmasked) payload of a complete frame -/
@@ -189,52 +234,134 @@ def nextFrame (g : Cfg) (s : S) : NF :=
         | none => .frame (h.headLen + h.bodyLen.toNat) h.opcode (frameBody s.cache h) h.fin h.r1
       else .need
 
+/-! #### readAll: the bounded inflate loop -/
+
+inductive RA
+  | ok (b : Bytes)
+  | tooLarge
+  | failed          -- the decompressor reported an error
+  | stuck           -- the observed script does not fit the loop (allocator/reader contract broken), or it ran out
+  deriving Repr, DecidableEq
+
+/-- never read beyond the limit, whatever capacity the allocator or append handed out -/
+def clampEnd (L cap : Nat) : Nat := if L > 0 ∧ cap > L then L else cap
+
+/-- the probe made when exactly the limit has been read: fine only if the stream ends here -/
+def probe (buf : Bytes) : List RdStep → RA
+  | [] => .stuck
+  | st :: rest =>
+    if st.n > 0 then .tooLarge
+    else if st.st == 1 then .ok buf
+    else if st.st != 0 then .failed
+    else probe buf rest
+
+/-- growth step: `al` more bytes, at most up to the limit, at most 4 MiB at a time -/
+def growBy (L l : Nat) : Nat :=
+  let al := if l > 4194304 then 4194304 else l
+  if L > 0 ∧ l + al > L then L - l else al
+
+/-- the loop of readAll. `buf` read so far, `rest` what the inflater still has, `need` the least capacity the
+    allocator owes us, `same` = some c when the buffer was not reallocated since the last read (capacity must be c). -/
+def readLoop (L : Nat) : List RdStep → Bytes → Bytes → Nat → Option Nat → RA
+  | [], _, _, _, _ => .stuck
+  | st :: steps, buf, rest, need, same =>
+    if st.cap < need || (match same with | some c => st.cap != c | none => false) then .stuck else
+    let e := clampEnd L st.cap
+    let k := e - buf.length
+    if st.n > k || st.n > rest.length || (st.n == 0 && st.st == 0 && k > 0) then .stuck else
+    let buf := buf ++ rest.take st.n
+    let rest := rest.drop st.n
+    if st.st == 1 then .ok buf
+    else if st.st != 0 then .failed
+    else if buf.length == e then
+      let l := buf.length
+      if L > 0 ∧ l + 1 > L then probe buf steps
+      else readLoop L steps buf rest (l + growBy L l) none
+    else readLoop L steps buf rest need (some st.cap)
+
+/-- `readAll(r, size)` -/
+def readAll (L size : Nat) (o : InflObs) : RA :=
+  let size := if L > 0 ∧ size > L then L else size
+  readLoop L o.steps [] o.out size none
+
+/-! #### the frame loop of Parse -/
+
 structure PR where
   s : S
   acts : List Act
   err : Option Err
 
-def frameLoop (g : Cfg) : Nat → S → List Act → PR
-  | 0, s, acts => ⟨s, acts, none⟩
+def closeReply (g : Cfg) (e : Env) (s : S) (err : Err) : List Act :=
+  if err == .tooLarge then send g e s 8 (be16 1009 ++ str "message exceeds the configured limit")
+  else if err == .controlTooBig then send g e s 8 (be16 1009 ++ str "websocket: control frame length > 125")
+  else []
+
+/-- handing a message to the executor: refused once the conn is closed -/
+def dispatch (g : Cfg) (e : Env) (s : S) (opcode : Nat) (data : Bytes) : S × List Act :=
+  if s.connClosed then (s, [])
+  else
+    let (a, cl) := handleWs g e s opcode data
+    ({ s with connClosed := s.connClosed || cl, nwrites := s.nwrites + countWrites a }, a)
+
+inductive FR
+  | fail (s : S) (e : Err)
+  | next (s : S) (acts : List Act)
+
+/-- data frame paragraph of the Parse closure: assembly, and on FIN inflate + delivery
+    (the cache shift that follows is done by the caller: it is skipped when this paragraph fails) -/
+def dataFrame (g : Cfg) (e : Env) (s : S) (opcode : Nat) (body : Bytes) (fin rsv1 : Bool) : FR :=
+  let s := if s.msgType == 0 then { s with msgType := opcode, compress := rsv1 } else s
+  let mt := s.msgType
+  let s := if body.length > 0 then { s with message := some ((s.message.getD []) ++ body) } else s
+  if fin then
+    let m := s.message.getD []
+    let s := { s with message := none }
+    let r : RA := if s.compress then readAll g.msgLimit (m.length * 2) (e.inflate m) else .ok m
+    match r with
+    | .tooLarge => .fail s .tooLarge
+    | .failed => .fail s .inflate
+    | .stuck => .fail s .stuck
+    | .ok m =>
+      let s := { s with msgType := 0, compress := false, expecting := false }
+      let (s, a) := dispatch g e s mt m
+      .next s a
+  else .next { s with expecting := true } []
+
+/-- one iteration on a complete frame -/
+def applyFrame (g : Cfg) (e : Env) (s : S) (opcode : Nat) (body : Bytes) (fin rsv1 : Bool) : FR :=
+  if opcode ≤ 2 then dataFrame g e s opcode body fin rsv1
+  else if opcode > 10 then .fail s .invalidFragment
+  else
+    let (s, a) := dispatch g e s opcode body
+    .next s a
+
+def frameLoop (g : Cfg) (e : Env) : Nat → S → List Act → PR
+  | 0, s, acts => ⟨s, acts, some .stuck⟩
   | fuel+1, s, acts =>
     match nextFrame g s with
     | .need => ⟨s, acts, none⟩
-    | .err e =>
-      let acts := if e == .tooLarge then acts ++ send g s 8 (be16 1009 ++ str "message exceeds the configured limit")
-                  else if e == .controlTooBig then acts ++ send g s 8 (be16 1009 ++ str "websocket: control frame length > 125")
-                  else acts
-      ⟨s, acts, some e⟩
+    | .err er =>
+      let a := closeReply g e s er
+      ⟨{ s with nwrites := s.nwrites + countWrites a }, acts ++ a, some er⟩
     | .frame total opcode body fin rsv1 =>
-      if opcode > 10 then ⟨s, acts, some .invalidFragment⟩ else
-      let s := { s with cache := s.cache.drop total }
-      if opcode ≤ 2 then
-        let s := if s.msgType == 0 then { s with msgType := opcode, compress := rsv1 } else s
-        let mt := s.msgType
-        let s := if body.length > 0 then
-                   { s with message := some ((s.message.getD []) ++ body) } else s
-        if fin then
-          let msg := s.message
-          let s := { s with message := none, msgType := 0, compress := false, expecting := false }
-          match msg with
-          | some m =>
-            if s.connClosed then frameLoop g fuel s acts
-            else
-              let (a, cl) := handleWs g s mt m
-              frameLoop g fuel { s with connClosed := s.connClosed || cl } (acts ++ a)
-          | none => frameLoop g fuel s acts          -- empty message: never delivered (defect #9)
-        else frameLoop g fuel { s with expecting := true } acts
-      else
-        if s.connClosed then frameLoop g fuel s acts
-        else
-          let (a, cl) := handleWs g s opcode body
-          frameLoop g fuel { s with connClosed := s.connClosed || cl } (acts ++ a)
-where str (x : String) : Bytes := x.toList.map (fun c => UInt8.ofNat c.toNat)
+      match applyFrame g e s opcode body fin rsv1 with
+      | .fail s er =>
+        let a := closeReply g e s er
+        ⟨{ s with nwrites := s.nwrites + countWrites a }, acts ++ a, some er⟩
+      | .next s' a => frameLoop g e fuel { s' with cache := s'.cache.drop total } (acts ++ a)
 
-def parse (g : Cfg) (s : S) (data : Bytes) : PR :=
+/-- `Conn.Parse(data)` -/
+def parse (g : Cfg) (e : Env) (s : S) (data : Bytes) : PR :=
   if data == [] then ⟨s, [], none⟩
   else if g.readLimit > 0 && s.cache ≠ [] && s.cache.length + data.length > g.readLimit then ⟨s, [], some .tooLong⟩
   else
     let s := { s with cache := s.cache ++ data }
-    frameLoop g (s.cache.length + 1) s []
+    frameLoop g e (s.cache.length + 1) s []
+
+/-- an application `WriteMessage` on this endpoint -/
+def appWrite (g : Cfg) (e : Env) (s : S) (opcode : Nat) (data : Bytes) : S × Except Err (List Bytes) :=
+  match writeMessage g e s.nwrites opcode data with
+  | .error er => (s, .error er)
+  | .ok ws => if s.connClosed then (s, .error .closed) else ({ s with nwrites := s.nwrites + ws.length }, .ok ws)
 
 end Ws
